@@ -793,7 +793,7 @@ impl Check for C14 {
         }
     }
     fn rule(&self) -> String {
-        "definitions = conventional levels (<=2 named items of all 10 kinds, naming styles incl. aliases; tails none / positionals / command trees of depth 3 with aliases, optional and defaulted choices); every third definition hides its first item, every fourth writes its defaults with fallback_with, every fifth wraps one of its sub-commands in hide(), repeated items are written many() / some(msg).optional() / many().catch() in rotation (optional items with and without catch()), a few use non-ASCII names, every second attaches an echoing completer (input+\"1\", input+\"2\") to every argument - half of them on the primitive, half above its optional / many / fallback wrapper; inputs = every vector of the token tree (incl. a non-UTF-8 word) as the already typed part x every typed last word from {empty, -, --, every prefix of every long name, every short name, --name=, --name=pre, command prefixes, plain words}; revision 0 through set_comp and (for short lines) through the --bpaf-complete-rev=0 marker; (a) the outcome is completion output for every line; (b) every candidate is the preferred spelling of a visible matching name of the active or an enclosing level, a value of the completer of the item being typed, or a metavariable placeholder - never a hidden item or a name below a command not entered; (c) on a fresh prefix every visible name of the active level that extends it and is not already given (single-use) is offered, commands when no word precedes, completer values for the item being typed; the active level / given set / pending value come from a reference scan of the typed part; right of `--` no option or command name may be offered whatever was typed; a choice between a positional and a named item (FILE | --list) behind a switch and inside a command must offer the name on every fresh prefix of it; lines the scan cannot classify (unknown names, clusters, separator) are only held to (a); state = (definition, line)".into()
+        "definitions = conventional levels (<=2 named items of all 10 kinds, naming styles incl. aliases; tails none / positionals / command trees of depth 3 with aliases, optional and defaulted choices); every third definition hides its first item, every fourth writes its defaults with fallback_with, every fifth wraps one of its sub-commands in hide(), repeated items are written many() / some(msg).optional() / many().catch() in rotation (optional items with and without catch()), a few use non-ASCII names, every second attaches an echoing completer (input+\"1\", input+\"2\") to every argument - half of them on the primitive, half above its optional / many / fallback wrapper; inputs = every vector of the token tree (incl. a non-UTF-8 word) as the already typed part x every typed last word from {empty, -, --, every prefix of every long name, every short name, --name=, --name=pre, command prefixes, plain words}; revision 0 through set_comp and (for short lines) through the --bpaf-complete-rev=0 marker; (a) the outcome is completion output for every line; (b) every candidate is the preferred spelling of a visible matching name of the active or an enclosing level, a value of the completer of the item being typed, or a metavariable placeholder - never a hidden item or a name below a command not entered; (c) on a fresh prefix every visible name of the active level that extends it and is not already given (single-use) is offered, commands when no word precedes, completer values for the item being typed; the active level / given set / pending value come from a reference scan of the typed part; right of `--` no option or command name may be offered whatever was typed; a choice between a positional and a named item (FILE | --list) behind a switch and inside a command must offer the name on every fresh prefix of it; lines the scan cannot classify (unknown names, clusters, separator) are only held to (a); state = (definition, line); every seventh definition puts its named items into group_help groups with an empty or blank title; switches beside an optional adjacent group (--point -x X), top level and inside a command: after every complete line of <=4 items every switch not given yet that extends the typed word is offered".into()
     }
     fn bounds(&self, tier: Tier) -> Value {
         json!({"typed_part_length": tier.pick(2, 3), "typed_words": "18 fixed + all prefixes of all names"})
